@@ -163,30 +163,23 @@ func (c *Collection) _enqueueBackfillEvents(db queryable, startCas uint64, keysO
 	return rows.Close()
 }
 
-func (c *Collection) postNewEvent(e *event) {
+// Posts the event of a just-committed mutation to the collection's feeds. Caller MUST hold
+// the bucket's lock (it is called at the end of the write's critical section, so that events
+// reach each feed in commit order, i.e. in CAS order).
+func (c *Collection) _postNewEvent(e *event) {
 	info("DCP: %s cas 0x%x: %q = %#.50q ---- xattrs %#q", c, e.cas, e.key, e.value, e.xattrs)
 	feedEvent := e.asFeedEvent(c.GetCollectionID())
-
-	c.postEvent(feedEvent)
-	c.bucket.expManager.scheduleExpirationAtOrBefore(e.exp)
-
-	/*
-		// Tell collections of other buckets on the same db file to post the event too:
-		for _, otherBucket := range bucketsAtURL(c.bucket.url) {
-			if otherBucket != c.bucket {
-				if otherCollection := otherBucket.getOpenCollectionByID(c.id); otherCollection != nil {
-					otherCollection.postEvent(feedEvent)
-				}
-			}
-		}
-	*/
+	c._postEvent(feedEvent, c.bucket.collectionFeeds[c.DataStoreNameImpl])
 }
 
 func (c *Collection) postEvent(event *sgbucket.FeedEvent) {
 	c.bucket.mutex.Lock()
 	feeds := c.bucket.collectionFeeds[c.DataStoreNameImpl]
 	c.bucket.mutex.Unlock()
+	c._postEvent(event, feeds)
+}
 
+func (c *Collection) _postEvent(event *sgbucket.FeedEvent, feeds []*dcpFeed) {
 	for _, feed := range feeds {
 		if feed != nil {
 			if feed.args.KeysOnly {
